@@ -251,6 +251,7 @@ pub struct Case3 {
 pub struct Obs {
     pub ambiguity: bool,
     pub refusal_located: bool,
+    pub oracle_panicked: bool,
     pub nontrivial: bool,
     pub tokens: usize,
 }
@@ -314,6 +315,7 @@ fn switch_tag_in_guard_context(toks: &[HTok]) -> bool {
 }
 
 pub fn check(input: &[u8], cuts: &[usize]) -> Result<Obs, (String, String)> {
+    let _ = crate::oracle::take_oracle_panicked();
     let text = std::str::from_utf8(input).map_err(|_| ("harness".to_string(), "input not UTF-8".to_string()))?;
     let mut obs = Obs::default();
     let strict_all = lol_tokens(input, cuts, TokenCaptureFlags::all(), true);
@@ -375,6 +377,11 @@ pub fn check(input: &[u8], cuts: &[usize]) -> Result<Obs, (String, String)> {
     }
     // the WHATWG oracle
     let oracle = norm_h(html5ever_tokens(text));
+    if crate::oracle::take_oracle_panicked() {
+        // html5ever itself panicked on this input: no opinion
+        obs.oracle_panicked = true;
+        return Ok(obs);
+    }
     let mine = merge_text(s_h);
     if mine != oracle {
         return Err(("tokens-differ-from-whatwg".into(), format!("lol-html (A) vs html5ever (B): {}{}", crate::norm::first_diff(&mine, &oracle), ctx())));
@@ -492,6 +499,9 @@ pub fn refine_key(key: &str, input: &[u8], cuts: &[usize]) -> String {
     let input2 = untemplate(input);
     let Ok(text2) = std::str::from_utf8(&input2) else { return key.to_string() };
     let oracle2 = norm_h(html5ever_tokens(text2));
+    if crate::oracle::take_oracle_panicked() {
+        return key.to_string();
+    }
     if mine == oracle2 {
         "template-insertion-modes-not-simulated".to_string()
     } else {
@@ -553,6 +563,9 @@ impl Prop for C03 {
             ctx.eval();
             match check(&input, &cuts) {
                 Ok(o) => {
+                    if o.oracle_panicked {
+                        ctx.count("html5ever_panicked_no_opinion");
+                    }
                     if o.ambiguity {
                         ctx.count("strict_refusals");
                         if o.refusal_located {
